@@ -164,9 +164,10 @@ FAMILIES = {
     "two-children-one-grandchild+top-insert": (2, (2, 1), (1, 0, 0)),
     "chains-with-inserts-at-every-level": (2, (1, 1), (1, 1, 1)),
     "two-children-two-grandchildren": (2, (2, 2), (0, 0, 0)),
-    "one-level-two-children-two-inserts": (1, (2,), (2, 1)),
+    "one-level-two-children-two-inserts": (1, (2,), (2, 0)),
 }
 FAMILIES_THOROUGH = {
+    "one-level-two-children-two-inserts+child-insert": (1, (2,), (2, 1)),
     "two-children-one-grandchild+inserts-two-levels": (2, (2, 1), (1, 1, 0)),
     "two-children-two-grandchildren+top-insert": (2, (2, 2), (1, 0, 0)),
 }
